@@ -449,6 +449,15 @@ def doc_pool():
         objs[base] = {"Type": Name("Page"), "Parent": Ref(2), "MediaBox": [0, 0, 300, 300], "Contents": Ref(base + 1), "Resources": {"Font": {"F1": Ref(5), "F2": Ref(9)}}}
         objs[base + 1] = Stream({}, ("BT /%s 10 Tf 20 %d Td <000100020003> Tj ET" % (fnt, 200 - 30 * k)).encode())
     pool["type0-shared-descendant"] = build(objs, 1)
+    # a horizontal and a vertical font of the same character collection (their collection Unicode maps differ on arrows, brackets, punctuation)
+    cidj = dict(cid)
+    fh = {"Type": Name("Font"), "Subtype": Name("Type0"), "BaseFont": Name("Shared"), "Encoding": Name("UniJIS-UCS2-H"), "DescendantFonts": [Ref(6)]}
+    fv = dict(fh, Encoding=Name("UniJIS-UCS2-V"))
+    objs = {1: {"Type": Name("Catalog"), "Pages": Ref(2)}, 2: {"Type": Name("Pages"), "Kids": [Ref(3), Ref(13), Ref(23)], "Count": 3}, 8: FD, 6: cidj, 5: fh, 9: fv}
+    for k, (base, fnt) in enumerate(((3, "F1"), (13, "F2"), (23, "F1"))):
+        objs[base] = {"Type": Name("Page"), "Parent": Ref(2), "MediaBox": [0, 0, 300, 300], "Contents": Ref(base + 1), "Resources": {"Font": {"F1": Ref(5), "F2": Ref(9)}}}
+        objs[base + 1] = Stream({}, ("BT /%s 10 Tf 20 %d Td <30422192 2191300C 300D3001> Tj ET" % (fnt, 250 - 30 * k)).replace(" 2191", "2191").replace(" 300D", "300D").encode())
+    pool["type0-horizontal-and-vertical-same-collection"] = build(objs, 1)
     # state that must not leak from page to page: an unbalanced q on page 1, Q first on page 2; text state set on page 1 only
     pool["unbalanced-q-across-pages"] = three_pages(t1(Name("WinAnsiEncoding")), None, ("(ABC) Tj", "(BCA) Tj", "(CAB) Tj"),
                                                     ("2 0 0 2 7 7 cm q 3 0 0 3 0 0 cm 5 Tc 50 Tz", "Q", "Q Q"))
@@ -488,14 +497,15 @@ os.environ["PYVC_REPO"] = %(repo)r
 from contracts.c12_purity import doc_pool, extract_sigs
 pool = doc_pool()
 name = sys.argv[1]
-print(json.dumps(extract_sigs(pool[name])))
+pages = [int(x) for x in sys.argv[2].split(",")] if len(sys.argv) > 2 and sys.argv[2] else None
+print(json.dumps(extract_sigs(pool[name], page_numbers=pages)))
 '''
 
 
 @bounded("call-histories-interleavings-caching-and-page-subsets", props=["C12"],
-         bound="pool of 9 three-page documents sharing object numbers, font name and encodings (WinAnsi with/without Differences, unknown base encoding with "
-               "Differences, implicit Standard, MacRoman with Differences, Type0 with predefined CMap H, two Type0 fonts sharing one descendant, Type0 with an embedded encoding CMap (pdfminer looks such a CMap up by name only: nothing decodes, but the lookup path runs), unbalanced q / text "
-               "state across pages). Reference = each document extracted alone in a fresh interpreter process. quick: 60 random call histories of length 2..6, all "
+         bound="pool of 10 three-page documents sharing object numbers, font name and encodings (WinAnsi with/without Differences, unknown base encoding with "
+               "Differences, implicit Standard, MacRoman with Differences, Type0 with predefined CMap H, two Type0 fonts sharing one descendant, a horizontal and a vertical font of one character collection, Type0 with an embedded encoding CMap (pdfminer looks such a CMap up by name only: nothing decodes, but the lookup path runs), unbalanced q / text "
+               "state across pages). Reference = each document extracted alone in a fresh interpreter process (all pages, and its middle page alone in another fresh process: both must agree). quick: 60 random call histories of length 2..6, all "
                "ordered pairs interleaved page by page, caching off, every single page and page pair extracted separately, the same document three times; thorough: 6000 histories")
 def _(tier, seed):
     import io, json, random, subprocess, sys, itertools
@@ -510,6 +520,14 @@ def _(tier, seed):
         if r.returncode != 0:
             return dict(evaluations=0, distinct=0, failures=[dict(stage="baseline", document=nm, error=r.stderr[-600:])])
         base[nm] = json.loads(r.stdout.strip().splitlines()[-1])
+        # the middle page alone, again in a fresh process: a process-wide cache filled by page 1 must not change page 2
+        r = subprocess.run([sys.executable, "-c", _BASELINE_SCRIPT % dict(verif=verif, repo=REPO), nm, "1"], capture_output=True, text=True, timeout=300)
+        if r.returncode != 0:
+            return dict(evaluations=0, distinct=0, failures=[dict(stage="baseline", document=nm, error=r.stderr[-600:])])
+        alone = json.loads(r.stdout.strip().splitlines()[-1])
+        if alone != base[nm][1:2]:
+            return dict(evaluations=1, distinct=1, failures=[dict(scenario="fresh-process: page 2 alone vs page 2 after page 1", document=nm,
+                                                                 alone=alone[0][:300] if alone else None, after_page_1=base[nm][1][:300])])
     hl = real_module("pdfminer.high_level")
 
     def check(kind, nm, got, history):
